@@ -623,6 +623,8 @@ class Validator:
         src = prelude() + '\n'.join(b for (_, b, _, _) in self.cases)
         rp = self.ctx.replay_native('translator-validation', src, expect_marker='VERIF-OBS', profiles=('dev',), inject_into='src/io_loop/mod.rs')
         tail = rp['profiles']['dev'].get('tail', '')
+        if 'VERIF-OBS' not in tail:
+            self.ctx.inconclusive.append('translator validation: the native run produced no observation at all: ' + str(rp['profiles']['dev'])[-1500:])
         ok = 0
         for (k, _, exp, label) in self.cases:
             mm = re.search(r'VERIF-OBS#%d# (.*)' % k, tail)
